@@ -175,9 +175,15 @@ def run_case(case, ctx):
     rf = gen.make_dataset(R[::-1].copy(), None, None if rm is None else rm[::-1].copy())
     lfr, _, _, _ = pipes.check_and_run(pipe, lf, rf)
     ctx.gate("flip_relation_checked")
+    has_bilateral = any(params[k].get("filter_method") == "bilateral" for k in keys)
     for nm in ("disparity_map", "validity_mask"):
-        if not gen.same(lfr[nm].data[::-1], lw[nm].data):
-            x, y = lfr[nm].data[::-1], lw[nm].data
+        x, y = lfr[nm].data[::-1], lw[nm].data
+        if has_bilateral and nm == "disparity_map":
+            # the weighted sums of the bilateral window are accumulated in the reverse row order: equal up to rounding
+            same = bool(np.all(np.isclose(x, y, rtol=1e-5, atol=1e-5) | (np.isnan(x) & np.isnan(y))))
+        else:
+            same = gen.same(x, y)
+        if not same:
             ctx.violation("vertical-flip-relation", f"{nm}: {gen.first_diffs(y, x, 3)} (a=original, b=flipped run flipped back)", case,
                           situation=nm, desc=desc)
     ctx.gate("scene_spanning_two_internal_blocks", int(big))
